@@ -63,25 +63,29 @@ def verify(src, mid, tests):
 
 
 def detect(mid, checks, budget):
+    """Apply the patch in a scratch worktree of /repo and run the quick checks against it (RLSIM_REPO), so
+    /repo itself is never touched and sweeps can run in parallel.  (The registered checks always run
+    against /repo; this is only the sensitivity experiment.)"""
     dst = os.path.join(VERIF, "seeded", mid)
-    rc, out = sh("git -C /repo status --porcelain")
-    if out.strip():
-        print("refusing: /repo is not clean:", out)
-        sys.exit(2)
+    wt = f"/tmp/wt/d-{mid}"
+    sh(f"git -C /repo worktree remove --force {wt}")
+    rc, out = sh(f"git -C /repo worktree add --detach {wt} HEAD")
     results = {}
     try:
-        rc, out = sh(f"git -C /repo apply {dst}/patch.diff")
+        rc, out = sh(f"git apply {dst}/patch.diff", cwd=wt)
         if rc != 0:
-            print("patch does not apply to /repo", out)
-            sys.exit(2)
-        for c in checks:
-            t0 = time.time()
-            rc, out = sh(f"./check {c} --tier quick --budget {budget} --det 0", cwd=VERIF, timeout=1800)
-            lines = [ln[:300] for ln in out.splitlines() if ln.startswith(("violation:", "VIOLATION"))]
-            results[c] = {"rc": rc, "wall_s": round(time.time() - t0), "first": lines[:3]}
-            print(mid, c, "rc", rc, (lines[:1] or [""])[0][:200])
+            print(mid, "patch does not apply to the current HEAD", out[:300])
+            results["_patch"] = {"rc": 2, "first": [out[:200]]}
+        else:
+            for c in checks:
+                t0 = time.time()
+                rc, out = sh(f"RLSIM_REPO={wt} RLSIM_NO_EVIDENCE=1 ./check {c} --tier quick --budget {budget} --det 0",
+                             cwd=VERIF, timeout=1800)
+                lines = [ln[:300] for ln in out.splitlines() if ln.startswith(("violation:", "VIOLATION"))]
+                results[c] = {"rc": rc, "wall_s": round(time.time() - t0), "first": lines[:3]}
+                print(mid, c, "rc", rc, (lines[:1] or [""])[0][:200])
     finally:
-        sh("git -C /repo checkout -- .")
+        sh(f"git -C /repo worktree remove --force {wt}")
     mp = os.path.join(dst, "meta.json")
     meta = json.load(open(mp))
     meta.setdefault("detection", {}).update(results)
